@@ -135,6 +135,14 @@ func judgeHop(c *chainRun, ans string, count func(string)) (next []byte, msg str
 		case isOld && c.uum && toks[0] == "werr":
 			count("b.skip.plain-union-unknown-member")
 			return nil, "", false
+		case isOld && !keep && toks[0] == "werr":
+			// safety net of the generator rule above (shrunk candidates): duplicates under the old schema
+			nd := 0
+			distinctSets(c.p.newS, c.p.oldS, c.sidx, c.norm, &nd)
+			if nd > 0 {
+				count("b.skip.set-duplicates-under-old")
+				return nil, "", false
+			}
 		}
 		return nil, "hop failed: " + ans + " (Read and Write of data written by compatible code must succeed)", false
 	}
@@ -404,7 +412,16 @@ func runPairs(repo, work string, r *vl.Rng, npairs, nvalues int, out *vl.Out) (*
 				}
 			} else {
 				for k := 0; k < nv; k++ {
-					vals = append(vals, valgen.Gen(r, p.newS, sidx, 1+r.Intn(5), valgen.Config{Count: out.Count, NilElems: true, NoNilRequired: true}))
+					v := valgen.Gen(r, p.newS, sidx, 1+r.Intn(5), valgen.Config{Count: out.Count, NilElems: true, NoNilRequired: true})
+					// set<Struct> elements must stay distinct for EVERY version of the schema in the chain: an element struct
+					// that gained fields (or has none in the old version) would otherwise give the old code a set with
+					// duplicates, which its Write rightly refuses (validate_set)
+					nd := 0
+					v = distinctSets(p.newS, p.oldS, sidx, v, &nd)
+					if nd > 0 {
+						out.Stats["b.gen.set-elements-dropped-equal-under-old"] += nd
+					}
+					vals = append(vals, v)
 				}
 			}
 			for _, v := range vals {
